@@ -75,7 +75,8 @@ SrcAnsOf(wd, k, n) ==
     [] OTHER        -> IF wd.base THEN Ok(<<Mod(n, BaseSeq, "ok")>>) ELSE A("nf")
 
 DstOf(wd, m) == CASE m = "AA-MIB" -> wd.dstA [] m = "BB-MIB" -> wd.dstB [] OTHER -> "absent"
-BorOf(wd, m) == CASE m = "AA-MIB" -> wd.borA [] m = "BB-MIB" -> wd.borB [] OTHER -> FALSE
+\* the borrower's reader also tries the upper-case variant of a name: Aa-Mib finds AA-MIB.json
+BorOf(wd, m) == CASE m \in {"AA-MIB", "Aa-Mib"} -> wd.borA [] m \in {"BB-MIB", "Bb-Mib"} -> wd.borB [] OTHER -> FALSE
 
 \* searcher lists:  json   = [AnyFileSearcher(dst), StubSearcher(base)]
 \*                  pysnmp = [PyFileSearcher(dst), PyPackageSearcher(pysnmp.smi.mibs), PyPackageSearcher(pysnmp_mibs), StubSearcher(base)]
@@ -88,8 +89,8 @@ SeaAnsOf(wd, k, m) ==
 
 Keys == {OptKey(o) : o \in OptNames} \cup {<<"bflav", 1, "-">>}
         \cup {<<"src", k, n>> : k \in 1..NSrc, n \in AllNames}
-        \cup {<<p, k, m>> : p \in {"sea", "bsea"}, k \in 1..NSea, m \in AllMods}
-        \cup {<<"bor", 1, m>> : m \in AllMods} \cup {<<"put", 0, m>> : m \in AllMods}
+        \cup {<<p, k, m>> : p \in {"sea", "bsea"}, k \in 1..NSea, m \in AllNames}
+        \cup {<<"bor", 1, m>> : m \in AllNames} \cup {<<"put", 0, m>> : m \in AllNames}
 
 EnvOf(wd) ==
   [k \in Keys |->
@@ -170,8 +171,11 @@ DExit ==
   /\ dpc' = "done"
   /\ UNCHANGED <<vars, w, reported, report, idxw>>
 
-DNext == DArgs \/ DCompile \/ DIndex \/ DReport \/ DExit
-DSpec == DInit /\ [][DNext]_allvars /\ WF_allvars(DNext)
+\* the script has ended; the self-loop lets TLC's deadlock check expose any OTHER state without successor
+\* (a world the specification cannot finish would otherwise silently drop out of the exported scenarios)
+DDone == dpc = "done" /\ UNCHANGED allvars
+DNext == DArgs \/ DCompile \/ DIndex \/ DReport \/ DExit \/ DDone
+DSpec == DInit /\ [][DNext]_allvars /\ WF_allvars(DArgs \/ DCompile \/ DIndex \/ DReport \/ DExit)
 
 \* ---------------------------------------------------------------- observables and C20 formulas
 \* module files created or replaced in the destination
